@@ -39,9 +39,16 @@ MaxOf(S) == CHOOSE x \in S : \A y \in S : x >= y
 Take(l, n) == SubSeq(l, 1, n)
 Drop(l, n) == SubSeq(l, n + 1, Len(l))
 StartsWith(l, p) == Len(l) >= Len(p) /\ Take(l, Len(p)) = p
-Pos(l, c) == LET S == {i \in 1..Len(l) : l[i] = c} IN IF S = {} THEN 0 ELSE MinOf(S)
-RStrip(l) == LET S == {i \in 1..Len(l) : l[i] \notin WS} IN IF S = {} THEN <<>> ELSE Take(l, MaxOf(S))
-LStrip(l) == LET S == {i \in 1..Len(l) : l[i] \notin WS} IN IF S = {} THEN <<>> ELSE Drop(l, MinOf(S) - 1)
+\* position of the first c in l (0 if there is none); l without trailing / leading white space
+RECURSIVE Scan(_, _, _)
+Scan(l, c, i) == IF i > Len(l) THEN 0 ELSE IF l[i] = c THEN i ELSE Scan(l, c, i + 1)
+Pos(l, c) == Scan(l, c, 1)
+RECURSIVE RLen(_, _)
+RLen(l, n) == IF n = 0 THEN 0 ELSE IF l[n] \notin WS THEN n ELSE RLen(l, n - 1)
+RStrip(l) == Take(l, RLen(l, Len(l)))
+RECURSIVE LSkip(_, _)
+LSkip(l, i) == IF i > Len(l) THEN Len(l) ELSE IF l[i] \notin WS THEN i - 1 ELSE LSkip(l, i + 1)
+LStrip(l) == Drop(l, LSkip(l, 1))
 Range(q) == {q[i] : i \in 1..Len(q)}
 RECURSIVE Flat(_)
 Flat(ss) == IF ss = <<>> THEN <<>> ELSE Head(ss) \o Flat(Tail(ss))
